@@ -83,6 +83,92 @@ def settle(lines):
     return out
 
 
+def validate_scenarios(ctx, scs, r, prop="C19"):
+    """Per scenario: the recorded hooks-loop events against TraceHooks, the time between rounds, what the scripts saw."""
+    events = r["events"]
+    # ---- event order against TraceHooks (per scenario, so that one rejection does not hide the others)
+    nval = 0
+    import concurrent.futures
+
+    def validate(i):
+        sr = r["scenarios"][i]
+        evs = events[sr["first"]:sr["last"]]
+        lines = settle([{"ev": e["ev"], "s": e["s"], "p": e["p"]} for e in evs if e["ev"] != "hexec"])
+        trace = "".join(json.dumps(x, separators=(",", ":")) + "\n" for x in lines)
+        return ctx.run_tlc("TraceHooks.tla", "TraceHooks.cfg", workers=1, timeout=120, name="trace-hooks-%d" % i, heap="1g",
+                           defines={"trace.ndjson": trace})
+    with concurrent.futures.ThreadPoolExecutor(max_workers=12) as ex:
+        tlcres = list(ex.map(validate, range(len(scs))))
+    for (sr, sc), t in zip(zip(r["scenarios"], scs), tlcres):
+        evs = events[sr["first"]:sr["last"]]
+        if sr["blocked"]:
+            ctx.violation(prop, "notify-send-blocked:" + sc["name"].split("-")[0], "a send to the hooks caller did not complete within 2 s")
+        lines = settle([{"ev": e["ev"], "s": e["s"], "p": e["p"]} for e in evs if e["ev"] != "hexec"])
+        hwm, inv = None, None
+        for line in open(t["outfile"]):
+            m = re.match(r'<<"HWM", (\d+), (\d+)>>', line)
+            if m:
+                hwm = (int(m.group(1)), int(m.group(2)))
+            m = re.match(r"Error: (Invariant|Action property) (\w+) is violated", line)
+            if m:
+                inv = m.group(2)
+        nval += 1
+        if t["status"] == "ok" and hwm and hwm[0] == hwm[1] + 1:
+            pass
+        elif inv:
+            ctx.violation(prop, "%s:%s" % (inv, sc["name"].split("-")[0]), "invariant %s false on the hooks loop's events in scenario %s" % (inv, sc["name"]), trace=lines)
+        elif hwm:
+            e = lines[hwm[0] - 1] if hwm[0] - 1 < len(lines) else {"ev": "?"}
+            key = {"hrun": "round-with-wrong-store-or-at-wrong-time", "end": "change-without-round", "hnotify": "pending-counter",
+                   "htimer": "pending-counter-at-timer", "hnewstore": "newstore-order"}.get(e["ev"], "trace-rejected:" + e["ev"])
+            if e["ev"] == "hnotify" and hwm[0] < len(lines) and lines[hwm[0]]["ev"] in ("hrun", "hnewstore"):
+                key = "round-with-replaced-store"
+            ctx.violation(prop, key, "scenario %s: hooks loop events are not a behaviour of Hooks at line %d %s; events: %s" % (
+                sc["name"], hwm[0], json.dumps(e), json.dumps(lines)[:900]))
+        else:
+            ctx.inconclusive.append("TraceHooks did not run for %s: %s" % (sc["name"], t["errors"][:2]))
+        # bursts are coalesced: real time between round i and round i+2 is at least the rate-limit interval
+        runs = [e["ts"] for e in evs if e["ev"] == "hrun"]
+        for i in range(len(runs) - 2):
+            if runs[i + 2] - runs[i] < (RATE_MS - 5) * 1000:
+                ctx.violation(prop, "more-than-two-rounds-per-interval", "scenario %s: three rounds within %d ms" % (sc["name"], (runs[i + 2] - runs[i]) / 1000))
+        # every round starts exactly the eligible scripts, with the argument `update` and the round's store
+        nrun = len(runs)
+        logl = [x for x in sr["scriptlog"] if x]
+        for name in ("10-first", "20-second"):
+            mine = [x for x in logl if x.startswith(name + "|")]
+            if len(mine) != nrun:
+                ctx.violation(prop, "scripts-started-differs-from-rounds", "scenario %s: %d rounds but %s ran %d times" % (sc["name"], nrun, name, len(mine)))
+            for x in mine:
+                f = x.split("|")
+                if f[1] != "update":
+                    ctx.violation(prop, "hook-arguments", x)
+        stores = [e["s"] for e in evs if e["ev"] == "hrun"]
+        got = [x.split("|")[2].split("/")[-1] for x in logl if x.startswith("10-first|")]
+        if sorted(got) != sorted(stores):
+            ctx.violation(prop, "hook-environment-store", "scenario %s: rounds carried %s but scripts saw %s" % (sc["name"], stores, got))
+    return nval
+
+
+def reload_chain_leg(ctx, prop):
+    """Only the real-agent reload scenarios (dispatcher + hooks caller): after every chain of reloads the hooks run with the
+    directory the agent serves - used by C18 (never a mixture of old and new base directory)."""
+    H, R, C = {"t": "hold"}, {"t": "release"}, {"t": "change"}
+    S = lambda ms: {"t": "sleep", "ms": ms}
+    RL = lambda x: {"t": "reload", "s": x}
+    scs = [{"name": "agent-three-reloads-held", "agent": True, "steps": [C, S(RATE_MS * 2), H, RL("B"), RL("C"), RL("A"), R, S(60), C, S(RATE_MS * 2), C]},
+           {"name": "agent-reloads-behind-change", "agent": True, "steps": [C, S(RATE_MS * 2), H, C, RL("B"), RL("C"), R, S(60), C, S(30), C]},
+           {"name": "agent-plain", "agent": True, "steps": [C, S(30), C, S(RATE_MS + 30), RL("B"), C, S(RATE_MS * 2), RL("C"), S(10), C]}]
+    inp = os.path.join(ctx.scratch, "hooks-chain.json")
+    outp = os.path.join(ctx.scratch, "hooks-chain.out.json")
+    json.dump({"scenarios": scs, "entries": [], "killtest": False}, open(inp, "w"))
+    rc, out = ctx.run_inpkg("TestVerifHooks", env={"VERIF_IN": inp, "VERIF_OUT": outp, "VERIF_SCRATCH": os.path.join(ctx.scratch, "hookschain")}, timeout=600)
+    if rc != 0 or not os.path.exists(outp):
+        ctx.inconclusive.append("hooks reload-chain driver failed (rc %s): %s" % (rc, out[-800:]))
+        return 0
+    return validate_scenarios(ctx, scs, json.load(open(outp)), prop)
+
+
 def run(ctx):
     thorough = ctx.tier == "thorough"
     cov = ctx.coverage
@@ -108,67 +194,7 @@ def run(ctx):
         ctx.fatal("hooks driver failed (rc %s): %s" % (rc, out[-2000:]))
     r = json.load(open(outp))
     events = r["events"]
-    # ---- event order against TraceHooks (per scenario, so that one rejection does not hide the others)
-    nval = 0
-    import concurrent.futures
-
-    def validate(i):
-        sr = r["scenarios"][i]
-        evs = events[sr["first"]:sr["last"]]
-        lines = settle([{"ev": e["ev"], "s": e["s"], "p": e["p"]} for e in evs if e["ev"] != "hexec"])
-        trace = "".join(json.dumps(x, separators=(",", ":")) + "\n" for x in lines)
-        return ctx.run_tlc("TraceHooks.tla", "TraceHooks.cfg", workers=1, timeout=120, name="trace-hooks-%d" % i, heap="1g",
-                           defines={"trace.ndjson": trace})
-    with concurrent.futures.ThreadPoolExecutor(max_workers=12) as ex:
-        tlcres = list(ex.map(validate, range(len(scs))))
-    for (sr, sc), t in zip(zip(r["scenarios"], scs), tlcres):
-        evs = events[sr["first"]:sr["last"]]
-        if sr["blocked"]:
-            ctx.violation("C19", "notify-send-blocked:" + sc["name"].split("-")[0], "a send to the hooks caller did not complete within 2 s")
-        lines = settle([{"ev": e["ev"], "s": e["s"], "p": e["p"]} for e in evs if e["ev"] != "hexec"])
-        hwm, inv = None, None
-        for line in open(t["outfile"]):
-            m = re.match(r'<<"HWM", (\d+), (\d+)>>', line)
-            if m:
-                hwm = (int(m.group(1)), int(m.group(2)))
-            m = re.match(r"Error: (Invariant|Action property) (\w+) is violated", line)
-            if m:
-                inv = m.group(2)
-        nval += 1
-        if t["status"] == "ok" and hwm and hwm[0] == hwm[1] + 1:
-            pass
-        elif inv:
-            ctx.violation("C19", "%s:%s" % (inv, sc["name"].split("-")[0]), "invariant %s false on the hooks loop's events in scenario %s" % (inv, sc["name"]), trace=lines)
-        elif hwm:
-            e = lines[hwm[0] - 1] if hwm[0] - 1 < len(lines) else {"ev": "?"}
-            key = {"hrun": "round-with-wrong-store-or-at-wrong-time", "end": "change-without-round", "hnotify": "pending-counter",
-                   "htimer": "pending-counter-at-timer", "hnewstore": "newstore-order"}.get(e["ev"], "trace-rejected:" + e["ev"])
-            if e["ev"] == "hnotify" and hwm[0] < len(lines) and lines[hwm[0]]["ev"] in ("hrun", "hnewstore"):
-                key = "round-with-replaced-store"
-            ctx.violation("C19", key, "scenario %s: hooks loop events are not a behaviour of Hooks at line %d %s; events: %s" % (
-                sc["name"], hwm[0], json.dumps(e), json.dumps(lines)[:900]))
-        else:
-            ctx.inconclusive.append("TraceHooks did not run for %s: %s" % (sc["name"], t["errors"][:2]))
-        # bursts are coalesced: real time between round i and round i+2 is at least the rate-limit interval
-        runs = [e["ts"] for e in evs if e["ev"] == "hrun"]
-        for i in range(len(runs) - 2):
-            if runs[i + 2] - runs[i] < (RATE_MS - 5) * 1000:
-                ctx.violation("C19", "more-than-two-rounds-per-interval", "scenario %s: three rounds within %d ms" % (sc["name"], (runs[i + 2] - runs[i]) / 1000))
-        # every round starts exactly the eligible scripts, with the argument `update` and the round's store
-        nrun = len(runs)
-        logl = [x for x in sr["scriptlog"] if x]
-        for name in ("10-first", "20-second"):
-            mine = [x for x in logl if x.startswith(name + "|")]
-            if len(mine) != nrun:
-                ctx.violation("C19", "scripts-started-differs-from-rounds", "scenario %s: %d rounds but %s ran %d times" % (sc["name"], nrun, name, len(mine)))
-            for x in mine:
-                f = x.split("|")
-                if f[1] != "update":
-                    ctx.violation("C19", "hook-arguments", x)
-        stores = [e["s"] for e in evs if e["ev"] == "hrun"]
-        got = [x.split("|")[2].split("/")[-1] for x in logl if x.startswith("10-first|")]
-        if sorted(got) != sorted(stores):
-            ctx.violation("C19", "hook-environment-store", "scenario %s: rounds carried %s but scripts saw %s" % (sc["name"], stores, got))
+    nval = validate_scenarios(ctx, scs, r)
     # ---- eligibility
     for e in r["eligibility"]:
         c = e["case"]
@@ -183,7 +209,13 @@ def run(ctx):
         if not k["alive_after_2s"] or k["alive_after_64s"]:
             ctx.violation("C19", "hanging-hook-not-killed", json.dumps(k))
     # ---- agent side: exactly the successful mutations notify (TraceAgent: owed / notify events)
-    ascs = [load_scenario("load-%d" % i, "", ctx.seed * 5 + i, clients=6, calls=12) for i in range(3 if not thorough else 12)]
+    ascs = [load_scenario("load-%d" % i, ["", "local"][i % 2], ctx.seed * 5 + i, clients=6, calls=12) for i in range(4 if not thorough else 12)]
+    # the internal hash upgrade is a change of the store like any other: it is notified too
+    upf = {"u1": {"present": True, "pw": "p1", "set": 1, "adm": False}, "u2": {"present": True, "pw": "p2", "set": 3, "adm": True}}
+    ascs.append({"name": "upgrade-notifies", "mode": "local", "default": 2, "files": upf, "passwords": af.PASSWORDS, "gated": False, "seed": 2,
+                 "steps": [{"t": "send", "c": "c1", "k": "auth", "u": "u1", "p": "p1", "a": False}, {"t": "sleep", "n": 40},
+                           {"t": "send", "c": "c2", "k": "auth", "u": "u2", "p": "p2", "a": False}, {"t": "sleep", "n": 40},
+                           {"t": "send", "c": "c3", "k": "auth", "u": "u1", "p": "p2", "a": False}, {"t": "free"}]})
     results, aevents = af.run_scenarios(ctx, ascs, "c19")
     nval += af.judge(ctx, ascs, results, aevents, "c19", "C19")
     cov["traces_validated_against_impl"] = nval
